@@ -65,10 +65,10 @@ def outcome(text, target):
     return outcome_from_parser(lambda: ConfigParser(io.StringIO(text)), target)
 
 
-def cli_outcome(text, target, args):
-    """the real command line -> same triple shape as outcome()"""
+def cli_outcome(text, target, args, inproc=False):
+    """the real command line (child process, or potable.main() called in this process) -> same triple shape as outcome()"""
     name = "out.xlsx" if target.startswith("excel") else "out.tab"
-    res = libroute.run_potable(list(args), text, outname=name)
+    res = (libroute.run_potable_main if inproc else libroute.run_potable)(list(args), text, outname=name)
     if res["rc"] == 0 and res["out"] is not None:
         return ("ok", normalise_output(target, res["out"] if target.startswith("excel") else res["out"].decode()))
     if res["rc"] == 2 and "configuration error" in res["stderr"]:
